@@ -17,8 +17,10 @@ GenNext ==
                    \/ \E o \in Obj : MkWr(w, o) /\ h' = Append(h, Lab("mkwr", w, o, 0))
   \/ \E r \in Reg, o \in Obj, t \in Obj \cup {0} : Register(r, o, t) /\ h' = Append(h, Lab("reg", r, o, t))
   \* a forced collection reclaims everything it can (the largest collectable set), or nothing observable
-  \/ \E C \in Collectable : Collect(C) /\ h' = Append(h, Lab("gc", 0, 0, 0))
-  \/ \E F \in SUBSET Reg : Jobs(F) /\ h' = Append(h, Lab("jobs", 0, 0, 0))
+  \* (generation only) the host steps are worth a line of the script once there is something to collect or clear
+  \/ made # {} /\ \E C \in Collectable : Collect(C) /\ h' = Append(h, Lab("gc", 0, 0, 0))
+  \/ made # {} /\ \E F \in SUBSET Reg : Jobs(F) /\ h' = Append(h, Lab("jobs", 0, 0, 0))
+  \/ kept # {} /\ ClearKept /\ h' = Append(h, Lab("clear", 0, 0, 0))
 
 GenInit == Init /\ h = <<>>
 
